@@ -814,7 +814,11 @@ func (ctx *context) Run() (res *Result) {
 
 	defer func() {
 		if r := recover(); r != nil {
-			ctx.res.runErr = fmt.Errorf("%s", r)
+			// Keep the first failure (eg an error reported by the data
+			// tree) rather than a follow-on panic.
+			if ctx.res.runErr == nil {
+				ctx.res.runErr = fmt.Errorf("%s", r)
+			}
 			res = ctx.res
 		}
 		ctx.saveDebug()
@@ -828,6 +832,11 @@ func (ctx *context) Run() (res *Result) {
 		instr.fn(ctx)
 		ctx.addDebug(ctx.pfx + "----\n")
 		_ = x
+		if ctx.res.runErr != nil {
+			// An instruction reported an error without pushing a result,
+			// so nothing that follows can run meaningfully.
+			break
+		}
 	}
 
 	return ctx.res
